@@ -87,7 +87,7 @@ def main():
             {"name": "vmon", "path": "/verif/vmon", "serves_properties": IDS, "kind_free_text": "orchestrator, shadow, generators, trace/history checkers, verdicts, evidence"},
         ],
         "checks": checks,
-        "notes": "Runtime monitoring only: every verdict comes from an oracle observing executions of the real crate built from /repo's working tree. Verdicts are three-valued (exit 0 held / 1 violation / 2 inconclusive). Known findings: /verif/known_findings.json (one open: F6). Sensitivity: 164 seeded changes in /verif/seeded (kill matrix in seeded/README.md, DESIGN.md section 13).",
+        "notes": "Runtime monitoring only: every verdict comes from an oracle observing executions of the real crate built from /repo's working tree. Verdicts are three-valued (exit 0 held / 1 violation / 2 inconclusive). Known findings: /verif/known_findings.json (one open: F6). Sensitivity: 170 seeded changes in /verif/seeded (kill matrix in seeded/README.md, DESIGN.md section 13).",
         "not_applicable": [{"property_id": i, "reason": "check not built yet (work in progress, see DESIGN.md section 11)"} for i in IDS if i not in CHECKS],
     }
     with open(os.path.join(V, "MANIFEST.json"), "w") as f:
